@@ -628,9 +628,18 @@ impl SimServer {
                 match src {
                     "y" => {
                         let n = limit.min(size.saturating_sub(off));
-                        o.extend(format!("size: {}\n", size).as_bytes());
-                        if name == "readpicture" && f[5] == "1" {
-                            o.extend(b"type: image/x-test\n");
+                        // keys are looked up by name: `type` before `size`, unknown keys in between or after
+                        let size_l = format!("size: {}\n", size);
+                        let type_l = "type: image/x-test\n";
+                        if name == "readpicture" && matches!(f[5], "1" | "2" | "3" | "4") {
+                            match f[5] {
+                                "2" => o.extend(format!("{type_l}{size_l}").as_bytes()),
+                                "3" => o.extend(format!("{size_l}description: Cover (front)\n{type_l}").as_bytes()),
+                                "4" => o.extend(format!("{size_l}{type_l}comment: x\n").as_bytes()),
+                                _ => o.extend(format!("{size_l}{type_l}").as_bytes()),
+                            }
+                        } else {
+                            o.extend(size_l.as_bytes());
                         }
                         o.extend(format!("binary: {}\n", n).as_bytes());
                         o.extend((off..off + n).map(picture_byte));
@@ -1064,7 +1073,7 @@ pub fn gen_schedule(r: &mut Rng, g: &GenCfg, steps: usize, prop: &str, backpress
                         // sometimes with a free-form tail that needs quoting AND contains non-ASCII text
                         // (the URI must reach the server byte for byte in every chunk request)
                         let tail = *r.pick(&["", "", "", "_Motörhead live", "_東京 事変", "_it's é\\x", "_ü"]);
-                        let uri = format!("art_{}_{}_{}_{}_{}{}", size, limit, emb, file, r.below(2), tail);
+                        let uri = format!("art_{}_{}_{}_{}_{}{}", size, limit, emb, file, r.below(5), tail);
                         do_act(&mut w, &mut sv, &mut actions, format!("a{}:{}", rid, hex(uri.as_bytes()))).await;
                     } else if g.typed && pick < 8 {
                         let is_vec = r.chance(1, 2);
@@ -1245,7 +1254,7 @@ pub fn gen(cfg: &Cfg) -> Vec<String> {
         "C01" => (cfg.n.unwrap_or(1200 * scale), GenCfg { faults: false, password: false, art: false, typed: false, changes: true, bytewise: true, wfaults: false, drop_events: true }),
         "C04" => (cfg.n.unwrap_or(1200 * scale), GenCfg { faults: false, password: false, art: false, typed: false, changes: true, bytewise: true, wfaults: true, drop_events: false }),
         "C05" => (cfg.n.unwrap_or(1200 * scale), GenCfg { faults: false, password: false, art: false, typed: false, changes: true, bytewise: false, wfaults: false, drop_events: true }),
-        "C08" => (cfg.n.unwrap_or(1500 * scale), GenCfg { faults: true, password: false, art: true, typed: false, changes: true, bytewise: false, wfaults: false, drop_events: false }),
+        "C08" => (cfg.n.unwrap_or(1500 * scale), GenCfg { faults: true, password: false, art: true, typed: false, changes: true, bytewise: false, wfaults: false, drop_events: true }),
         "C13" => (cfg.n.unwrap_or(600 * scale), GenCfg { faults: false, password: false, art: false, typed: true, changes: true, bytewise: true, wfaults: false, drop_events: false }),
         "C17" => (cfg.n.unwrap_or(500 * scale), GenCfg { faults: false, password: false, art: true, typed: false, changes: true, bytewise: false, wfaults: false, drop_events: true }),
         // C06: the password is an argument too (the only one that does not go through a typed command)
